@@ -33,7 +33,7 @@ NONE = ('none',)
 # types:  rec:Name  opaque:Name  opt[T]  nextfn[T]  + the types of py2lean
 def parse_type(s):
     s = s.strip()
-    if s in ('int', 'nat', 'bool', 'str', 'bytes', 'obj', 'pow10'):
+    if s in ('int', 'nat', 'bool', 'str', 'bytes', 'obj', 'pow10', 'descr', 'dtag'):
         return (s,)
     if re.match(r'(rec|opaque):\w+$', s):
         return (s,)
@@ -97,6 +97,10 @@ class StateSpec(object):
             return ' '.join([self.lean_names[k[4:]]] + ps), not ps
         if k == 'pow10':
             return 'Py.Pow10', True
+        if k == 'descr':
+            return 'Descr', True
+        if k == 'dtag':
+            return 'Descr.Tag', True
         if k in ('opt', 'nextfn'):
             inner = P.lean_type(t[1], False)
             if k == 'nextfn':
@@ -118,6 +122,10 @@ def _default_ext(t):
         return 'none'
     if k == 'pow10':
         return '(Py.pow10 0)'
+    if k == 'descr':
+        return '(Descr.OtherDescriptor 0)'
+    if k == 'dtag':
+        return 'Descr.Tag.OtherDescriptor'
     return None
 
 
@@ -208,8 +216,34 @@ class ProcCompiler(P.FuncCompiler):
             self.bad(e, 'the receiver of this method is only used to call other methods')
         return P.FuncCompiler.e_Name(self, e)
 
+    def e_Compare(self, e):
+        if len(e.ops) == 1 and isinstance(e.ops[0], (ast.Is, ast.IsNot)):
+            a = self.expr(e.left)
+            c = e.comparators[0]
+            if (self.kind(a, e) == 'dtag' and isinstance(c, ast.Name) and c.id not in self.names
+                    and c.id in self.st.descr_classes):
+                neg = '!' if isinstance(e.ops[0], ast.IsNot) else ''
+                return self.lift([a], lambda k: '(%sdecide (%s = Descr.Tag.%s))' % (neg, k[0], c.id), BOOL)
+            self.bad(e, '`is` other than <type(x)> is <descriptor class>')
+        if len(e.ops) == 2 and all(isinstance(o, (ast.Lt, ast.LtE, ast.Gt, ast.GtE)) for o in e.ops):
+            # a <= b <= c: (a <= b) and (b <= c), b evaluated once (it must be a plain name or literal)
+            mid = e.comparators[0]
+            if not isinstance(mid, (ast.Name, ast.Constant)):
+                self.bad(e, 'chained comparison whose middle operand is not a name or literal')
+            c1 = ast.Compare(left=e.left, ops=[e.ops[0]], comparators=[mid])
+            c2 = ast.Compare(left=mid, ops=[e.ops[1]], comparators=[e.comparators[1]])
+            both = ast.BoolOp(op=ast.And(), values=[c1, c2])
+            for n in (c1, c2, both):
+                ast.copy_location(n, e)
+            return P.FuncCompiler.e_BoolOp(self, both)
+        return P.FuncCompiler.e_Compare(self, e)
+
     def e_Attribute(self, e):
         v = self.expr(e.value)
+        if not isinstance(prune(v.ty), TV) and prune(v.ty)[0] == 'descr':
+            if e.attr in self.st.descr_props:
+                return self.lift([v], lambda c: '(Descr.%s %s)' % (lean_ident(e.attr), c[0]), self.st.descr_props[e.attr])
+            self.bad(e, 'attribute .%s of a descriptor object is not in the translator specification' % e.attr)
         attrs = self.rec_attrs(v.ty, e)
         if e.attr not in attrs:
             self.bad(e, 'attribute .%s has no declared type in the translator specification' % e.attr)
@@ -246,6 +280,11 @@ class ProcCompiler(P.FuncCompiler):
 
     def e_Call(self, e):
         f = e.func
+        if (isinstance(f, ast.Name) and f.id == 'type' and 'type' not in self.names and len(e.args) == 1 and not e.keywords):
+            a = self.expr(e.args[0])
+            if self.kind(a, e) == 'descr':
+                return self.lift([a], lambda c: '(Descr.tag %s)' % c[0], ('dtag',))
+            self.bad(e, 'type() of something that is not a descriptor object')
         if self.is_partial_next_iter(e):
             src = self.expr(e.args[1].args[0])
             k = self.kind(src, e)
@@ -274,6 +313,44 @@ class ProcCompiler(P.FuncCompiler):
             return self.lift(parts, lambda c: '({ %s } : %s)' % (
                 ', '.join('%s := %s' % (lean_ident(nm), x) for nm, x in zip(order, c)), lname), ('rec:' + f.id,))
         return P.FuncCompiler.e_Call(self, e)
+
+    def definite_other(self, s, assigned):
+        if isinstance(s, ast.Continue):
+            return set(self.local_types) | set(self.params)     # nothing after it is reached on this path
+        return P.FuncCompiler.definite_other(self, s, assigned)
+
+    # -- `continue`: the rest of the loop body after an `if` that contains a `continue` becomes a definition `cont_n`,
+    # called at the end of every path of the `if` that does not end in `continue`
+    def flow(self, stmts, k=None):
+        """`k`: the compiled continuation (a call of a definition `cont_n`) appended where the list falls through"""
+        for i, st in enumerate(stmts):
+            if isinstance(st, ast.Continue):
+                return self.seq([self.stmt(x) for x in stmts[:i]])
+            if any(isinstance(n, ast.Continue) for n in ast.walk(st)):
+                if not isinstance(st, ast.If):
+                    self.bad(st, '`continue` inside a statement other than `if`')
+                head = [self.stmt(x) for x in stmts[:i]]
+                c = self.as_bool(self.expr(st.test), st.test)
+                if c.raises:
+                    self.bad(st, 'test of an `if` that contains `continue` may raise')
+                rest = list(stmts[i + 1:])
+                if rest:
+                    rtext, rr = self.flow(rest, k)
+                    name = 'cont_%d' % (len([a for a in self.aux if a[0].startswith('cont_')]) + 1)
+                    self.aux.append((name, rtext, rr, rest[0], ''))
+                    k2 = ('(%s %sv)' % (name, 'self ' if self.recv == 'callbacks' else ''), rr)
+                else:
+                    k2 = k
+                a, ar = self.flow(list(st.body), k2)
+                b, br = self.flow(list(st.orelse), k2)
+                if ar or br:
+                    if not ar:
+                        a = '(pure %s)' % a
+                    if not br:
+                        b = '(pure %s)' % b
+                item = ('(if %s then\n    %s\n  else\n    %s)' % (c.code, indent_rest(a, 4), indent_rest(b, 4)), ar or br)
+                return self.seq(head + [item])
+        return self.seq([self.stmt(x) for x in stmts] + ([k] if k else []))
 
     # -- statements -------------------------------------------------------------------------------
     def obj_attr_target(self, t):
@@ -468,7 +545,30 @@ class ProcCompiler(P.FuncCompiler):
             for n in ast.walk(st):
                 if isinstance(n, ast.Return):
                     self.bad(n, '`return` that is not the last statement of the method')
-        if self.ms.get('split') and stmts:
+        if self.ms.get('loop'):
+            # the method is one `for x in <list parameter>:` loop: the body is a definition of its own (`body`), the
+            # method is `Py.forIn` over the list (evaluated once, by value)
+            if len(stmts) != 1 or not isinstance(stmts[0], ast.For) or stmts[0].orelse:
+                self.bad(self.node, 'a method declared as a loop must consist of one `for` statement')
+            lp = stmts[0]
+            if not (isinstance(lp.target, ast.Name) and isinstance(lp.iter, ast.Name) and lp.iter.id in self.params
+                    and prune(self.params[lp.iter.id])[0] == 'list'):
+                self.bad(lp, 'loop that is not `for name in <list parameter>`')
+            for n in ast.walk(lp):
+                if isinstance(n, (ast.Break, ast.Return)) or (isinstance(n, (ast.For, ast.While)) and n is not lp):
+                    self.bad(n, 'break / return / nested loop inside the loop of a loop method')
+                if isinstance(n, ast.Name) and isinstance(n.ctx, ast.Store) and n.id == lp.iter.id:
+                    self.bad(n, 'the loop body assigns the list it iterates over')
+            ety = prune(self.params[lp.iter.id])[1]
+            first = self.set_local(lp.target.id, Ex('x', ety), lp)
+            btext, br = self.seq([first, self.flow(list(lp.body))])
+            self.aux.append(('body', btext, br, lp, ' (x : %s)' % P.lean_type(ety)))
+            call = '(body %sv x)' % ('self ' if self.recv == 'callbacks' else '')
+            if br:
+                head, hr = '(Py.forIn v.%s v (fun x v => %s))' % (lean_ident(lp.iter.id), call), True
+            else:
+                head, hr = '(Py.forInPure v.%s v (fun x v => %s))' % (lean_ident(lp.iter.id), call), False
+        elif self.ms.get('split') and stmts:
             # every top-level statement becomes a definition of its own (`stmt_k : Locals → (Except Py.Exc) Locals`), the
             # method is their composition: lemmas about the generated code can then be stated statement by statement
             items = []
@@ -477,7 +577,7 @@ class ProcCompiler(P.FuncCompiler):
                 if text == 'v' and not r:
                     continue
                 name = 'stmt_%d' % (len(self.aux) + 1)
-                self.aux.append((name, text, r, st))
+                self.aux.append((name, text, r, st, ''))
                 items.append(('(%s %sv)' % (name, 'self ' if self.recv == 'callbacks' else ''), r))
             head, hr = self.seq(items)
         else:
@@ -530,7 +630,7 @@ class ProcCompiler(P.FuncCompiler):
         for n in ast.walk(node):
             if isinstance(n, ast.Name) and isinstance(n.ctx, (ast.Store, ast.Del)) and n.id in self.params and self.is_obj(n.id):
                 self.bad(n, 'assignment to the object parameter %s' % n.id)
-            if isinstance(n, (ast.While, ast.For)):
+            if isinstance(n, (ast.While, ast.For)) and not self.ms.get('loop'):
                 self.bad(n, 'loop inside a procedure on objects')
         self.local_types = {n: TV() for n in local_names}
         self.locals_ty = 'Locals'
@@ -582,14 +682,14 @@ class ProcCompiler(P.FuncCompiler):
             all_tp = cparams
         else:
             all_tp = tp
-        for name, atext, ar, st in self.aux:
+        for name, atext, ar, st, extra in self.aux:
             a, b, _ = self.mod.src(st)
             asig = ''
             if all_tp:
                 asig += ' {%s : Type}' % ' '.join(all_tp)
             if cb_ty:
                 asig += ' (self : %s)' % cb_ty
-            asig += ' (v : %s)' % self.locals_ty
+            asig += ' (v : %s)%s' % (self.locals_ty, extra)
             out.append('/-- %s:%s  statement of `%s` -/' % (self.mod.relpath, a if a == b else '%d-%d' % (a, b), self.node.name))
             out.append('def %s%s : %s :=\n  %s' % (name, asig, 'Except Py.Exc (%s)' % self.locals_ty if ar else self.locals_ty, indent_rest(atext, 2)))
             out.append('')
@@ -629,13 +729,75 @@ def namedtuple_fields(mod, name):
     return node, [x.value for x in v.args[1].elts]
 
 
+def render_descr(gen, st, ds):
+    """the descriptor objects as ONE inductive type `Descr`, a constructor per class of `descriptors.py` the coder
+    distinguishes (with the attributes it reads), plus `OtherDescriptor` for an object of any other class.  Checked
+    against the source: every class exists, and every listed attribute is assigned (`<obj>.<attr> = …`) in the body of
+    the class or of one of its base classes (by name, within the module)."""
+    dmod = P.ModuleCtx(ds['file'])
+
+    def class_node(name, at=0):
+        nodes = dmod.classes.get(name, [])
+        if len(nodes) != 1:
+            raise P.Py2LeanUnsupported(dmod.relpath, at, 'class %s not found exactly once' % name)
+        return nodes[0]
+
+    def assigned_attrs(name, seen=()):
+        node = class_node(name)
+        out = set()
+        for n in ast.walk(node):
+            if isinstance(n, ast.Attribute) and isinstance(n.ctx, ast.Store):
+                out.add(n.attr)
+        for b in node.bases:
+            if isinstance(b, ast.Name) and b.id in dmod.classes and b.id not in seen:
+                out |= assigned_attrs(b.id, seen + (name,))
+        return out
+
+    lines = ['/-- %s: descriptor objects as the coder sees them — one constructor per class it distinguishes by\n'
+             '    `type(x) is C`, with the attributes it reads (checked against the class declarations: git blob %s);\n'
+             '    `OtherDescriptor`: an object of any other class -/' % (dmod.relpath, dmod.blob), 'inductive Descr where']
+    for cname, attrs in ds['classes']:
+        node = class_node(cname)
+        have = assigned_attrs(cname)
+        for a in attrs:
+            if a not in have:
+                raise P.Py2LeanUnsupported(dmod.relpath, node, 'class %s: attribute %s is not assigned in the class or its bases' % (cname, a))
+        a0, b0, _ = dmod.src(node)
+        fields = ' '.join('(%s : %s)' % (lean_ident(a), P.lean_type(parse_type(t))) for a, t in attrs.items())
+        lines.append('  | %s %s    -- %s:%d-%d' % (cname, fields, dmod.relpath, a0, b0))
+        st.descr_classes[cname] = {a: parse_type(t) for a, t in attrs.items()}
+        gen.items.append({'kind': 'class', 'name': cname, 'lines': [a0, b0], 'file': dmod.relpath, 'blob': dmod.blob})
+    lines.append('  | OtherDescriptor (id : Int)')
+    names = [c for c, _ in ds['classes']] + ['OtherDescriptor']
+    lines += ['', '/-- `type(x)` of a descriptor object -/', 'inductive Descr.Tag where',
+              '  ' + ' '.join('| %s' % n for n in names), '  deriving DecidableEq, Repr', '',
+              '/-- `type(x)` -/', 'def Descr.tag : Descr → Descr.Tag']
+    for n in names:
+        lines.append('  | .%s .. => .%s' % (n, n))
+    lines += ['', '/-- `x.id` (every descriptor class has it: `Descriptor.__init__`) -/', 'def Descr.id : Descr → Int']
+    for cname, attrs in ds['classes']:
+        if list(attrs)[0] != 'id':
+            raise P.Py2LeanUnsupported(dmod.relpath, 0, 'the first attribute of %s in the specification must be id' % cname)
+        lines.append('  | .%s id .. => id' % cname)
+    lines.append('  | .OtherDescriptor id => id')
+    lines += ['', '/-- `x.X`: the property `Descriptor.X` as translated in Gen/PyDescriptors.lean -/',
+              'def Descr.X (d : Descr) : Int := PyGen.descriptors.Descriptor.X { id := Descr.id d }']
+    if not hasattr(gen, 'opened'):
+        gen.opened = {}
+    gen.opened.setdefault('descriptors', ('BufrModel.Gen.PyDescriptors', []))
+    st.descr_props = {'id': INT, 'X': INT}
+    return '\n'.join(lines)
+
+
 def render_state(gen, sspec):
     """called by ModuleGen.render: the texts of the records and procedures of the `'state'` part of a module spec"""
     mod = gen.mod
     st = StateSpec(sspec)
     _CURRENT['st'] = st
     P.TYPE_EXT['rec'] = P.TYPE_EXT['opaque'] = P.TYPE_EXT['opt'] = P.TYPE_EXT['nextfn'] = P.TYPE_EXT['pow10'] = _type_ext
+    P.TYPE_EXT['descr'] = P.TYPE_EXT['dtag'] = _type_ext
     P.DEFAULT_EXT['opt'] = P.DEFAULT_EXT['nextfn'] = P.DEFAULT_EXT['pow10'] = _default_ext
+    P.DEFAULT_EXT['descr'] = P.DEFAULT_EXT['dtag'] = _default_ext
     texts = []
     st.namedtuples = set()
     for name, ftypes in sspec.get('namedtuples', {}).items():
@@ -653,6 +815,9 @@ def render_state(gen, sspec):
         lines.append('  deriving DecidableEq')
         texts.append('\n'.join(lines))
         gen.items.append({'kind': 'namedtuple', 'name': name, 'lines': [a, b]})
+    st.descr_classes, st.descr_props = {}, {}
+    if sspec.get('descr'):
+        texts.append(render_descr(gen, st, sspec['descr']))
     for name, rs in sspec.get('records', {}).items():
         st.records[name] = {f: parse_type(t) for f, t in rs['attrs'].items()}
         st.lean_names[name] = '%s.Self' % name
@@ -716,10 +881,22 @@ _CODER_STATE_ATTRS = {
 
 _OPD_ARGS = ['rec:CoderState', 'opaque:BitOperator', 'rec:OperatorDescriptor']
 _ELT_ARGS = ['rec:CoderState', 'opaque:BitOperator', 'rec:ElementDescriptor']
+_MEM_ARGS = ['rec:CoderState', 'opaque:BitOperator', 'descr']
+_MEM_CB = {'args': _MEM_ARGS, 'mutates': [0, 1]}
 
 STATE_SPECS = {
     'coder': {
         'opaque': ['Descriptor', 'Value', 'BitOperator'],
+        'descr': {'file': 'pybufrkit/descriptors.py', 'classes': [
+            ('ElementDescriptor', {'id': 'int', 'unit': 'str', 'scale': 'int', 'refval': 'int', 'nbits': 'int'}),
+            ('MarkerDescriptor', {'id': 'int', 'unit': 'str', 'scale': 'int', 'refval': 'int', 'nbits': 'int', 'marker_id': 'int'}),
+            ('AssociatedDescriptor', {'id': 'int', 'nbits': 'int'}),
+            ('SkippedLocalDescriptor', {'id': 'int', 'nbits': 'int'}),
+            ('OperatorDescriptor', {'id': 'int'}),
+            ('FixedReplicationDescriptor', {'id': 'int', 'members': 'list[descr]'}),
+            ('DelayedReplicationDescriptor', {'id': 'int', 'members': 'list[descr]', 'factor': 'descr'}),
+            ('SequenceDescriptor', {'id': 'int', 'members': 'list[descr]'}),
+        ]},
         'namedtuples': {'BSRModifier': {'nbits_increment': 'int', 'scale_increment': 'int', 'refval_factor': 'int'}},
         'records': {
             'CoderState': {'attrs': _CODER_STATE_ATTRS},
@@ -768,6 +945,17 @@ STATE_SPECS = {
                     'process_numeric': {'args': _ELT_ARGS + ['int', 'pow10', 'int'], 'mutates': [0, 1]},
                     'process_numeric_of_new_refval': {'args': _ELT_ARGS + ['int', 'pow10', 'int'], 'mutates': [0, 1]},
                 }}),
+            # the member loop: the methods it dispatches to are callbacks here (the translated ones satisfy the
+            # correspondences the theorems ask of these callbacks: C01_src_process_element_descriptor, …)
+            ('Coder', 'process_members', {
+                'self': 'callbacks', 'loop': True,
+                'params': {'state': 'rec:CoderState', 'bit_operator': 'opaque:BitOperator', 'members': 'list[descr]'},
+                'mutates': ['state', 'bit_operator'],
+                'callbacks': {k: _MEM_CB for k in (
+                    'process_define_new_refval', 'process_skipped_local_descriptor', 'process_bitmap_definition',
+                    'process_element_descriptor', 'process_fixed_replication_descriptor',
+                    'process_delayed_replication_descriptor', 'process_operator_descriptor',
+                    'process_sequence_descriptor')}}),
         ],
     },
 }
